@@ -46,8 +46,8 @@ def scenarios(tier, seed):
                         per_level.append(dir_opts(full=True if l == stop else False) if False else dir_opts(l == stop) + [o for o in dir_opts(True) if o["spok"] != "none" and l != stop])
                 uopts = dir_opts(True) if (start == -1 or stop == -1) else [none]
                 combos = list(itertools.product(*per_level))
-                if len(combos) * len(uopts) > (3000 if tier == "quick" else 60000):
-                    combos = rnd.sample(combos, (3000 if tier == "quick" else 60000) // len(uopts))
+                if len(combos) * len(uopts) > (3000 if tier == "quick" else 12000):
+                    combos = rnd.sample(combos, (3000 if tier == "quick" else 12000) // len(uopts))
                 for lv in combos:
                     for u in uopts:
                         scen.append({"id": len(scen) + 1, "levels": list(lv), "u": u, "start": start, "stop": stop})
